@@ -162,7 +162,7 @@ class SymArray(np.ndarray):
 def sa(x):
     """view object arrays as SymArray (recursively through tuples/lists)."""
     if isinstance(x, np.ndarray):
-        if x.dtype == object and not isinstance(x, SymArray):
+        if not isinstance(x, SymArray) and (x.dtype == object or (ENG.active and x.ndim > 0 and x.dtype != bool)):
             return x.view(SymArray)
         return x
     if isinstance(x, tuple):
